@@ -104,40 +104,12 @@ func runC03(c *Ctx) {
 
 	// R4 policy set agreement
 	const r4 = "C03.R4 accepted invocation policies = arms of the selection switch"
-	reg := dlr + "register"
-	accepted := policyConsts(c, reg, `^\(call:wamp\.AsString\(%msg\.Options\["invoke"\]\)#0 == ("[a-z]*")\)$`)
-	selected := policyConsts(c, dlr+"syncCall", `^\(`+dReg+`\.policy == ("[a-z]*")\)$`)
-	// policies under which a second callee can be admitted = accepted \ {"", single}
-	var shared []string
-	for _, p := range accepted {
-		if p != `""` && p != `"single"` {
-			shared = append(shared, p)
-		}
-	}
-	c.R.Check(strings.Join(shared, ",") == strings.Join(selected, ",") && len(selected) >= 2, r4, reg, "shared policies accepted by register == arms of syncCall's switch",
-		c.P.FuncPos(c.P.Func(reg)), "register accepts "+strings.Join(accepted, ",")+" but syncCall selects for "+strings.Join(selected, ","))
-	// the hand-off is guarded by the validation switch
-	var okEdges []ir.EdgeSpec
-	for _, p := range accepted {
-		okEdges = append(okEdges, T(`^\(call:wamp\.AsString\(%msg\.Options\["invoke"\]\)#0 == `+q(p)+`\)$`))
-	}
-	c.Guard(r4, reg, "hand-off", `^send:%d\.actionChan<-closure:`, 1, clause("invoke policy is a known one", okEdges...))
-	c.Has(r4, reg+"$1", "validated values are the ones registered", `^call:router\.\(\*dealer\)\.syncRegister\(\^d, \^callee, \^msg, \^match, \^invoke, \^disclose, \^forwardTimeout, \^wampURI\)$`, 1)
-	for _, w := range [][2]string{
-		{"match", `^call:wamp\.AsString\(%msg\.Options\["match"\]\)#0$`},
-		{"invoke", `^call:wamp\.AsString\(%msg\.Options\["invoke"\]\)#0$`},
-		{"wampURI", `^call:strings\.HasPrefix\(%msg\.Procedure, "wamp\."\)$`},
-		{"disclose", `^%msg\.Options\["disclose_caller"\]\.\(bool\),ok#0$`},
-		{"forwardTimeout", `^%msg\.Options\["forward_timeout"\]\.\(bool\),ok#0$`},
-	} {
-		c.localIs(r4, reg, w[0], w[1])
-	}
-	// selection arms pick from the registration's callees
-	c.Guard(r4, dlr+"syncCall", "selection by policy", `^val:`+dReg+`\.callees\[[^0]`, 3, clause("several callees", T(`^\(1 < call:builtin:len\(`+dReg+`\.callees\)\)$`)))
+	rulePolicyAgreement(c, r4)
 	c.R.Floor(r4, 10)
 
 	// R5 restricted procedures and URI validity
 	const r5 = "C03.R5 register: URI validity and wamp.* restriction before hand-off"
+	reg := dlr + "register"
 	c.Guard(r5, reg, "hand-off", `^send:%d\.actionChan<-closure:`, 1,
 		clause("procedure URI valid for the requested match", T(`^call:wamp\.\(URI\)\.ValidURI\(%msg\.Procedure, %d\.strictURI, call:wamp\.AsString\(%msg\.Options\["match"\]\)#0\)$`)),
 		clause("not a wamp.* procedure, or registered by the meta session", F(`^call:strings\.HasPrefix\(%msg\.Procedure, "wamp\."\)$`), T(`^\(%callee\.ID == 1\)$`)))
@@ -219,6 +191,11 @@ func runC03(c *Ctx) {
 		`^store:%d\.invocations\[%d\.invocationByCall\[`+dCallKey+`\],ok#0\]\.&inProgress=%msg\.Options\["progress"\]\.\(bool\),ok#0$`, 1)
 	c.Fields(r9, sc, "invocation literal records the in-progress mark", "router.invocation", nil, map[string]string{"inProgress": `^%msg\.Options\["progress"\]\.\(bool\),ok#0$`}, 1)
 	c.R.Floor(r9, 5)
+
+	const r10 = "C03.R10 a departed callee is removed from the dealer before its peer is closed (no call is routed to it afterwards)"
+	ruleSessionRemoval(c, r10)
+	ruleDealerRemoval(c, r10)
+	c.R.Floor(r10, 14)
 }
 
 // policyConsts collects the string constants c compared for equality in atoms
@@ -283,4 +260,39 @@ func ruleUnregisterMember(c *Ctx, r7 string) {
 	c.Fields(r7, su, "no_such_registration reply", "wamp.Error", fieldIs("Error", `no_such_registration`), map[string]string{
 		"Request": `^%msg\.Request$`, "Type": `^call:wamp\.\(\*Unregister\)\.MessageType\(%msg\)$`}, 1)
 	c.Fields(r7, su, "UNREGISTERED literal", "wamp.Unregistered", nil, map[string]string{"Request": `^%msg\.Request$`}, 1)
+}
+
+// rulePolicyAgreement: the invocation policies register accepts (and stores verbatim) are exactly the arms of the
+// selection switch in syncCall, whose default arm is an invariant panic.
+func rulePolicyAgreement(c *Ctx, r4 string) {
+	reg := dlr + "register"
+	accepted := policyConsts(c, reg, `^\(call:wamp\.AsString\(%msg\.Options\["invoke"\]\)#0 == ("[a-z]*")\)$`)
+	selected := policyConsts(c, dlr+"syncCall", `^\(`+dReg+`\.policy == ("[a-z]*")\)$`)
+	// policies under which a second callee can be admitted = accepted \ {"", single}
+	var shared []string
+	for _, p := range accepted {
+		if p != `""` && p != `"single"` {
+			shared = append(shared, p)
+		}
+	}
+	c.R.Check(strings.Join(shared, ",") == strings.Join(selected, ",") && len(selected) >= 2, r4, reg, "shared policies accepted by register == arms of syncCall's switch",
+		c.P.FuncPos(c.P.Func(reg)), "register accepts "+strings.Join(accepted, ",")+" but syncCall selects for "+strings.Join(selected, ","))
+	// the hand-off is guarded by the validation switch
+	var okEdges []ir.EdgeSpec
+	for _, p := range accepted {
+		okEdges = append(okEdges, T(`^\(call:wamp\.AsString\(%msg\.Options\["invoke"\]\)#0 == `+q(p)+`\)$`))
+	}
+	c.Guard(r4, reg, "hand-off", `^send:%d\.actionChan<-closure:`, 1, clause("invoke policy is a known one", okEdges...))
+	c.Has(r4, reg+"$1", "validated values are the ones registered", `^call:router\.\(\*dealer\)\.syncRegister\(\^d, \^callee, \^msg, \^match, \^invoke, \^disclose, \^forwardTimeout, \^wampURI\)$`, 1)
+	for _, w := range [][2]string{
+		{"match", `^call:wamp\.AsString\(%msg\.Options\["match"\]\)#0$`},
+		{"invoke", `^call:wamp\.AsString\(%msg\.Options\["invoke"\]\)#0$`},
+		{"wampURI", `^call:strings\.HasPrefix\(%msg\.Procedure, "wamp\."\)$`},
+		{"disclose", `^%msg\.Options\["disclose_caller"\]\.\(bool\),ok#0$`},
+		{"forwardTimeout", `^%msg\.Options\["forward_timeout"\]\.\(bool\),ok#0$`},
+	} {
+		c.localIs(r4, reg, w[0], w[1])
+	}
+	// selection arms pick from the registration's callees
+	c.Guard(r4, dlr+"syncCall", "selection by policy", `^val:`+dReg+`\.callees\[[^0]`, 3, clause("several callees", T(`^\(1 < call:builtin:len\(`+dReg+`\.callees\)\)$`)))
 }
